@@ -197,16 +197,29 @@ def check_numeric(case) -> Outcome:
     s = render_terms(terms, intercept)
     f = Formula(s)
     d = f.differentiate(*wrt)
+    entry = case.get("entry", "formula")
+    out.label("entry:" + entry)
     output = case.get("output", "numpy")
     mat = case.get("mat", "pandas")
     if mat == "nw-arrow":
         import pyarrow as pa
 
-        mm = d.get_model_matrix(pa.Table.from_pandas(df, preserve_index=False), output=output, ensure_full_rank=efr)
+        dat, mkw = pa.Table.from_pandas(df, preserve_index=False), {}
     elif mat == "nw-pandas":
-        mm = d.get_model_matrix(df, output=output, ensure_full_rank=efr, materializer="narwhals")
+        dat, mkw = df, {"materializer": "narwhals"}
     else:
-        mm = d.get_model_matrix(df, output=output, ensure_full_rank=efr)
+        dat, mkw = df, {}
+    if entry != "formula":
+        # the same derivative taken on a model spec (fresh, or the spec of a matrix materialised the same way)
+        from formulaic import ModelSpec
+
+        spec0 = ModelSpec(formula=Formula(s)) if entry == "spec-fresh" else Formula(s).get_model_matrix(dat, ensure_full_rank=efr, **mkw).model_spec
+        dspec = spec0.differentiate(*wrt)
+        if [[x.expr for x in t.factors] for t in dspec.formula] != [[x.expr for x in t.factors] for t in d]:
+            out.fail("spec-derivative-differs", f"{s!r} d/d{wrt} via {entry}: {dspec.formula!r} vs {d!r}", efr=efr, entry=entry)
+            return out
+        d = dspec
+    mm = d.get_model_matrix(dat, output=output, ensure_full_rank=efr, **mkw)
     out.label("mat:" + mat)
     M = np.asarray(mm.toarray() if hasattr(mm, "toarray") else mm, dtype=float).reshape(len(df), -1)
     out.label("efr" if efr else "no-efr", "out:" + output)
@@ -273,6 +286,7 @@ def gen_numeric():
             "efr": st.booleans(),
             "output": st.sampled_from(["numpy", "pandas", "sparse"]),
             "mat": st.sampled_from(["pandas", "pandas", "nw-pandas", "nw-arrow"]),
+            "entry": st.sampled_from(["formula", "formula", "spec-fresh", "spec-materialised"]),
             "data": st.lists(vals, min_size=4, max_size=4),
         }
     )
